@@ -359,6 +359,96 @@ def version_selection(ctx, dec):
                           % ((mtn, ce, su, v, lv), key.wmo_tables_sn, key.local_tables_sn, want_wmo, want_loc), spec)
 
 
+def preorder(D, ids, out=None):
+    """ids of a descriptor list in display order: sequences before their members, a delayed replication's factor before
+    its body"""
+    out = [] if out is None else out
+    i = 0
+    n = len(ids)
+    while i < n:
+        d = ids[i]
+        i += 1
+        out.append(d)
+        F = d // 100000
+        if F == 1:
+            X = d // 1000 % 100
+            if d % 1000 == 0 and i < n:
+                out.append(ids[i])
+                i += 1
+            preorder(D, ids[i:i + X], out)
+            i += X
+        elif F == 3 and d in D:
+            preorder(D, D[d], out)
+    return out
+
+
+def cli_tables(ctx):
+    """`lookup` prints an element's Table B attributes, `info -t` the template of a file: both against the table files"""
+    from mon.cli import run_cli
+    rng = ctx.rng
+    versions = R.wmo_versions()
+    for rep in range(2 if ctx.quick else 12):
+        v = rng.choice(versions)
+        B, D = R.load_tables(0, 0, 0, v, 0)
+        eids = rng.sample(sorted(B), 12)
+        so, se, exc, code = run_cli(['lookup', ','.join('%06d' % e for e in eids), '--master-table-version', str(v)])
+        ctx.count('cli_lookup_runs')
+        spec = dict(part='cli-lookup', version=v, ids=eids)
+        if exc is not None or se.strip():
+            ctx.violate('cli-lookup-fails', 'pybufrkit lookup failed: %r %s' % (exc, se[:120]), spec)
+            continue
+        lines = [ln for ln in so.splitlines() if ln.strip()]
+        for e, ln in zip(eids, lines):
+            name, unit, scale, ref, width = B[e][:5]
+            ctx.evaluated(('lookup', v, e), True)
+            ctx.count('cli_lookup_elements')
+            if not ln.startswith('%06d ' % e) or not ln.endswith(', %s, %s, %s, %s' % (unit, scale, ref, width)):
+                ctx.violate('cli-lookup-differs', 'lookup of %06d (version %d) printed %r, Table B has unit %r scale %r reference %r width %r'
+                            % (e, v, ln[:120], unit, scale, ref, width), spec)
+                break
+        if len(lines) != len(eids):
+            ctx.violate('cli-lookup-differs', 'lookup of %d elements printed %d lines' % (len(eids), len(lines)), spec)
+    repo = os.environ.get('VERIF_REPO', '/repo')
+    import glob
+    files = sorted(glob.glob(os.path.join(repo, 'tests', 'data', '*.bufr')))
+    for i, f in enumerate(files):
+        if not ctx.mine(i) or os.path.basename(f) in ('multi_invalid_messages.bufr', 'prepbufr.bufr'):
+            continue
+        b = open(f, 'rb').read()
+        try:
+            fr = R.parse_frame(b[b.find(b'BUFR'):])
+            ids = fr.param('unexpanded_descriptors')
+            mtv = fr.param('master_table_version')
+            ce, su, lv = fr.param('originating_centre'), fr.param('originating_subcentre'), fr.param('local_table_version')
+            B, D = R.load_tables(0, ce, su or 0, mtv, lv)
+            want = preorder(D, list(ids))
+        except Exception:
+            ctx.count('cli_info_reference_unavailable')
+            continue
+        so, se, exc, code = run_cli(['info', '-t', f])
+        ctx.count('cli_info_template_runs')
+        ctx.evaluated(('info-t', os.path.basename(f)), True)
+        spec = dict(part='cli-info-t', file=os.path.basename(f))
+        if exc is not None or se.strip():
+            ctx.violate('cli-info-fails', 'pybufrkit info -t failed: %r %s' % (exc, se[:120]), spec)
+            continue
+        lines = so.splitlines()
+        try:
+            st = max(j for j, ln in enumerate(lines) if ln.startswith('BufrTemplate'))
+        except ValueError:
+            ctx.violate('cli-info-template-missing', 'info -t printed no template', spec)
+            continue
+        got = []
+        for ln in lines[st + 1:]:
+            t = ln.lstrip(' .')
+            if len(t) >= 6 and t[:6].isdigit():
+                got.append(int(t[:6]))
+        if got != want:
+            k = next((j for j, (a, c) in enumerate(zip(got, want)) if a != c), min(len(got), len(want)))
+            ctx.violate('cli-info-template-differs', 'info -t lists %d descriptors, the direct expansion has %d; first difference at %d'
+                        % (len(got), len(want), k), spec)
+
+
 def run(ctx):
     from pybufrkit.tables import TableGroupCacheManager
     from pybufrkit.decoder import Decoder
@@ -390,6 +480,7 @@ def run(ctx):
     random_lists(ctx, tg, B, D)
     undefined_cases(ctx, dec, B, D)
     version_selection(ctx, dec)
+    cli_tables(ctx)
 
 
 def replay(ctx, case):
